@@ -57,6 +57,7 @@ class Nilsimsa(object):
         return bytes(bytearray(code[::-1]))
 
     def __call__(self,data):
+        self.reset()
         return self.update(data).digest()
 
     def tran3(self,a,b,c,n):
